@@ -95,7 +95,17 @@ class PlanBuilder:
             if it.k == 'Enum':
                 self.plan['enums'].append({'py': self._pypath(path) + [it.name], 'vals': cxxlib.enum_values(it)})
             elif it.k == 'Var':
-                self.plan['attrs'].append({'py': self._pypath(path) + [it.name]})
+                lib = {'double': 2.5, 'int': 17, 'bool': True}.get(it.type.name)
+                val = lib
+                if it.default is not None:
+                    d = it.default.strip()
+                    try:
+                        val = {'true': True, 'false': False}.get(d, None)
+                        if val is None:
+                            val = float(d) if it.type.name == 'double' else int(d)
+                    except ValueError:
+                        val = None
+                self.plan['attrs'].append({'py': self._pypath(path) + [it.name], 'value': val})
             elif it.k == 'Func':
                 for combo in ref_inst._products(it.template):
                     env = {p.name: i for p, i in zip(it.template or (), combo)}
